@@ -146,42 +146,79 @@ def r04_5_reader(cx):
 
     def norm(ix):
         return rewrite(rewrite(strip_convs(expand_vars(b, ix)), fn), fn)
-    reads = []
-    for bi in sorted(b.live_blocks()):
-        t0 = b.term(bi)
-        if t0['k'] == 'call' and is_call(b.call_term(bi, t0), r'Index::index$'):
-            ct = b.call_term(bi, t0)
-            if is_repr(ct[2][0]):
-                reads.append((bi, norm(ct[2][1])))
-    forms = sorted({affine_str(ix) for bi, ix in reads if not is_agg(ix, r'Range')})
-    want = sorted({'+O', '+O +1', '+O +2', '+CLASS +O +2', '+CL +4*I +O +2', '+CL +4*I +O +3', '+CL +4*I +O +4', '+CL +4*I +O +5'})
+    # decided on the iteration summaries of the failure loop: every read of self.repr is at one of the offsets the writer laid out
+    # (evaluated with o = 100, class = 7, classes_len = 3, chunk index = 2), and a hit in class lane k returns target lane k
+    from rules.search import FailLoop
+    from acverif.sym import canon, cstr, teval
+    from acverif.rl import Unsupported, EvalPanic
+    K = FailLoop(cx, 'contiguous')
+    forms, why_l = set(), None
+    lanes_hit = set()
+    if not K.ok:
+        forms = {'?'}
+        why_l = 'failure loop not recognised'
+    else:
+        S = cstr(K.St)
+
+        def at(t):
+            s0 = cstr(t)
+            if s0 == S:
+                return 100
+            if re.match(r'util::alphabet::ByteClasses::get\(self\.byte_classes, ', s0):
+                return 7
+            if re.match(r'nfa::contiguous::u32_len\(', s0):
+                return 3
+            if re.match(r'^\(core::iter::Iterator::next\(.*\) as Some\)\.0\.0$', s0):
+                return 2
+            return None
+
+        def reads_of(t):
+            out = []
+            for x in subterms(canon(t)):
+                ix = None
+                if is_call(x, r'core::ops::Index::index$') and cstr(x[2][0]) == 'self.repr':
+                    ix = x[2][1]
+                elif x[0] == 'idx' and cstr(x[1]) == 'self.repr':
+                    ix = x[2]
+                if ix is None or is_agg(ix, r'Range'):
+                    continue
+                try:
+                    out.append(teval(ix, at))
+                except (Unsupported, EvalPanic, KeyError, TypeError):
+                    out.append('?:' + cstr(ix)[:60])
+            return out
+        for r in K.rows:
+            terms = [c for c, v in r.conds] + ([r.ret] if r.ret is not None else []) + [v for l, v in r.env.items() if isinstance(v, tuple) and l != 0]
+            for t in terms:
+                forms.update(reads_of(t))
+            if r.end != 'return' or r.ret is None:
+                continue
+            hits = []
+            for c, v in r.conds:
+                cc = canon(c)
+                if cc[0] == 'op' and cc[1] == 'Eq':
+                    for a0, b0 in ((cc[2], cc[3]), (cc[3], cc[2])):
+                        if a0[0] == 'idx' and a0[2][0] == 'c' and is_call(peel_all(a0[1]), r'to_ne_bytes$') and re.match(r'util::alphabet::ByteClasses::get\(', cstr(b0)):
+                            hits.append((a0[2][1], v))
+            true_l = [k for k, v in hits if v is True]
+            if not true_l:
+                continue
+            if len(true_l) != 1 or hits[-1][0] != true_l[0]:
+                why_l = why_l or 'a path decides on several class lanes'
+                continue
+            k = true_l[0]
+            got = reads_of(r.ret)
+            got = got[:1]
+            if got != [113 + k]:
+                why_l = why_l or 'a hit in class lane %d reads offset %s (expected classes end + 4*i + %d)' % (k, [g - 113 if isinstance(g, int) else g for g in got], k)
+            lanes_hit.add(k)
+        if lanes_hit != {0, 1, 2, 3}:
+            why_l = why_l or 'class lanes tested: %s (expected 0..3)' % sorted(lanes_hit)
+    want = {100, 101, 102, 109, 113, 114, 115, 116}
     ok = forms == want
-    cx.report('R04.5', b, 'reader-offsets', ok, 'next_state reads kind@o, fail@o+1, dense target@o+2+class, single target@o+2, sparse target k of chunk i@o+2+classes_len+4i+k' if ok else
-              'contiguous next_state index expressions deviate: %s (expected %s)' % (forms, want))
-    # the lane compared and the lane read agree: classes[k] == class -> +k
-    okl = True
-    nl = 0
-    for blk, sc in b.switches():
-        if sc[0] != 'bool':
-            continue
-        c = sc[1]
-        if not (c[0] == 'op' and c[1] == 'Eq'):
-            continue
-        sides = [c[2], c[3]]
-        lane = [s for s in sides if s[0] == 'idx' and s[2][0] == 'c' and is_call(peel_all(expand_vars(b, s[1])), r'to_ne_bytes$')]
-        cls = [s for s in sides if norm(s) == atom('CLASS')]
-        if len(lane) != 1 or len(cls) != 1:
-            continue
-        nl += 1
-        k = lane[0][2][1]
-        for tgt in sc[2]:
-            r = b.reach(tgt, cut_blocks=[h for h in b.loops()])
-            idx = [affine_str(ix) for bi, ix in reads if bi in r]
-            first = [x for x in idx if '4*I' in x]
-            if not first or first[0] != '+CL +4*I +O %+d' % (2 + k):
-                okl = False
-    okl = okl and nl == 4
-    cx.report('R04.5', b, 'lane-agreement', okl, 'a hit in class lane k reads target lane k (4 lanes)' if okl else 'class lane and target lane disagree in the sparse lookup (%d lane tests found)' % nl)
+    cx.report('R04.5', b, 'reader-offsets', ok, 'next_state reads kind@o, fail@o+1, dense target@o+2+class, single target@o+2, sparse target k of chunk i@o+2+classes_len+4i+k (evaluated on the iteration summaries)' if ok else
+              'contiguous next_state reads self.repr at %s relative to o=100, class=7, classes_len=3, i=2 (expected %s)' % (sorted(forms, key=str), sorted(want)))
+    cx.report('R04.5', b, 'lane-agreement', why_l is None, 'a hit in class lane k reads target lane k (4 lanes)' if why_l is None else 'class lane and target lane disagree in the sparse lookup: %s' % why_l)
     KIND = None
     okk = True
     nk = 0
